@@ -287,6 +287,8 @@ def natural_case(spec):
         if len(with_recs) < 2:
             return {'skipped': True, 'counters': {'natural_too_few_transcripts': 1}}
         X = rng.choice(with_recs)
+        if rng.random() < 0.5:
+            X = with_recs[-1]          # the LAST transcript in annotation order (its turn comes when a partial batch may be pending)
         kind = spec.get('poison') or rng.choice(['small-beyond-gene', 'fusion-acceptor-beyond-gene'])
         gsX = case.ref.gene_seq(X.gene)
         if kind == 'small-beyond-gene':
@@ -356,6 +358,26 @@ def natural_case(spec):
                 - set().union(*[r1.units.get(u, set()) for u in dependent] or [set()])
             if out1 & only_x:
                 viol.append({'kind': 'failed-unit-peptides-present', 'msg': f'{kind} on {X.id}: {sorted(out1 & only_x)[:5]}'})
+        # ---- the same natural fault through the CLI with ppft workers: same FASTA as the in-process --threads 1 run
+        if spec.get('cli') and r1 is not None:
+            for t in (2, 3):
+                outp2 = f'{wd}/ncli{t}.fasta'
+                argv = ['callVariant', '-i'] + paths2 + ['-g', f'{wd}/genome.fasta', '-a', f'{wd}/annotation.gtf', '-p',
+                                                          f'{wd}/proteome.fasta', '-o', outp2, '--threads', str(t), '--skip-failed',
+                                                          '--max-variants-per-node', '-1', '--additional-variants-per-misc', '-1',
+                                                          '--cleavage-exception', 'None']
+                rc, so, se = common.run_cli(argv, timeout=600)
+                counters['natural_cli_runs'] = counters.get('natural_cli_runs', 0) + 1
+                if rc is None:
+                    continue
+                if rc != 0:
+                    viol.append({'kind': 'cli-skip-failed-nonzero-exit', 'msg': f'{kind} on {X.id}, --threads {t}: exit {rc}: {se[-300:]}'})
+                    continue
+                got = {s for _, s in drivers.read_fasta(outp2)}
+                if got != out1:
+                    viol.append({'kind': 'cli-fault-output-differs',
+                                 'msg': f'{kind} on {X.id} (last transcript: {X is with_recs[-1]}), --threads {t}: {len(got)} peptides, '
+                                        f'--threads 1 gives {len(out1)}; missing {sorted(out1 - got)[:4]} extra {sorted(got - out1)[:4]}'})
         return {'nontrivial': True, 'feature': ('natural', kind, len(own), len(dependent), len(units)), 'violations': viol[:8],
                 'counters': counters,
                 'sample': {'natural_fault': kind, 'transcript': X.id, 'own_units': [list(u) for u in sorted(own)],
@@ -371,7 +393,8 @@ def check(rep, tier, seed, specs=None, n_override=None):
         specs = [{'seed': common.hash64('c07', 'fixed' if i < n // 2 else seed, i), 'max_faults': 2 if quick else 3,
                   'max_sets': 40 if quick else 200, 'cli': (i % 6 == 0)} for i in range(n)]
         nn = (n_override or (96 if quick else 6000))
-        specs += [{'kind': 'natural', 'seed': common.hash64('c07n', 'fixed' if i < nn // 2 else seed, i)} for i in range(nn)]
+        specs += [{'kind': 'natural', 'seed': common.hash64('c07n', 'fixed' if i < nn // 2 else seed, i), 'cli': i % 6 == 0}
+                  for i in range(nn)]
     results, lost = common.shard_run('c07', specs, timeout_s=1800 if quick else 8 * 3600)
     rep.rule = ('inputs with 2-3 transcripts carrying small variants (main unit), 1-2 fusions as donor and 1-2 circRNAs (<= 14 units); the '
                 'fault-free run records the peptides each unit returns (wrappers on call_peptide_main / _fusion / _circ_rna). For EVERY single '
@@ -387,6 +410,6 @@ def check(rep, tier, seed, specs=None, n_override=None):
     rep.absorb(results, lost)
     rep.exhaustive = True
     rep.extra['exhaustive_scope'] = 'all single faults of every generated case (and all pairs up to the per-case cap)'
-    for k in ('fault_runs', 'abort_runs', 'cli_fault_runs', 'cli_tally_checks', 'natural_runs', 'natural_abort_runs'):
+    for k in ('fault_runs', 'abort_runs', 'cli_fault_runs', 'cli_tally_checks', 'natural_runs', 'natural_abort_runs', 'natural_cli_runs'):
         if not rep.counters.get(k):
             rep.inconclusive.append(f'monitor {k} had zero evaluations')
